@@ -221,9 +221,10 @@ fn run_generate(
         }
         true
     } else {
-        GenerationCache::needs_regeneration(
+        GenerationCache::needs_regeneration_with_events(
             &config.output_path,
             &commands,
+            analyzer.get_discovered_events(),
             discovered_structs,
             &config,
         )
@@ -273,7 +274,12 @@ fn run_generate(
     }
 
     // Save cache after successful generation
-    let cache = GenerationCache::new(&commands, discovered_structs, &config)?;
+    let cache = GenerationCache::new_with_events(
+        &commands,
+        analyzer.get_discovered_events(),
+        discovered_structs,
+        &config,
+    )?;
     if let Err(e) = cache.save(&config.output_path) {
         eprintln!("Warning: Failed to save generation cache: {}", e);
     }
